@@ -576,7 +576,7 @@ impl KeyWorld {
                 None => continue,
             };
             if let Some(s) = c.snapshot() {
-                let info = match snap::check_structure(&s) {
+                let info = match snap::check_structure_at(&s, Some(self.now)) {
                     Ok(i) => i,
                     Err(m) => {
                         if want_struct {
